@@ -72,7 +72,12 @@ fn build_settings(v: &Value) -> Result<TypeSpaceSettings, String> {
     if let Some(cs) = v.get("crates").and_then(|b| b.as_object()) {
         for (name, spec) in cs {
             let vers = spec.get("version").and_then(|x| x.as_str()).unwrap_or("*");
-            let vers = CrateVers::parse(vers).ok_or_else(|| format!("bad version {}", vers))?;
+            // built from the semver crate directly, NOT through CrateVers::parse: the front-ends' parsing is what C15 compares against
+            let vers = match vers {
+                "*" => CrateVers::Any,
+                "!" => CrateVers::Never,
+                v => CrateVers::Version(semver::Version::parse(v).map_err(|e| format!("bad version {}: {}", v, e))?),
+            };
             let rename = spec
                 .get("rename")
                 .and_then(|x| x.as_str())
